@@ -100,7 +100,7 @@ def split_delay(tape, total, parts):
 def gen_e1(tape, tier="quick", *, allow_pull=True, allow_cycles=True, allow_delay_push=True,
            allow_omission=True, allow_finish=False, allow_offsets=True, allow_faults=True,
            allow_delay=True, allow_buffering=True, allow_integrating=True, max_sim=5,
-           cycle_regime=None, pull_fanout=True, cycle_chance=(1, 3), adapter_fanout=True, allow_sinks=True):
+           cycle_regime=None, pull_fanout=True, cycle_chance=(1, 3), adapter_fanout=True, allow_sinks=True, allow_static=True):
     n_sim = tape.weighted([(2, 5), (3, 6), (4, 3), (5, 2)])
     n_sim = min(n_sim, max_sim)
     n_pull = tape.weighted([(0, 6), (1, 3), (2, 1)]) if allow_pull else 0
@@ -128,6 +128,8 @@ def gen_e1(tape, tier="quick", *, allow_pull=True, allow_cycles=True, allow_dela
     def new_output(ci):
         c = comps[ci]
         o = {"name": f"o{len(c['outputs'])}", "base": (ci + 1) * 1000 + len(c["outputs"]) * 100}
+        if c["kind"] == "static":
+            o["base"] += 0.5
         if c["kind"] == "sim":
             o["inc"] = tape.choice([1, 1, 2, 5])
         c["outputs"].append(o)
@@ -202,6 +204,18 @@ def gen_e1(tape, tier="quick", *, allow_pull=True, allow_cycles=True, allow_dela
                               allow_delay=allow_delay and not integ_up, allow_buffering=allow_buffering,
                               allow_integrating=allow_integrating)
             add_link(src, ci, chain)
+
+    # static sources: one publication valid for every time, read by static or ordinary inputs
+    if allow_static and tape.chance(1, 5):
+        comps.append({"name": f"t{len(comps)}", "kind": "static", "inputs": [], "outputs": []})
+        k = len(comps) - 1
+        users = [i for i, c in enumerate(comps) if c["kind"] in ("sim", "pull")]
+        for _ in range(tape.weighted([(1, 3), (2, 2)])):
+            dst = users[tape.draw(len(users))]
+            ch = [gen_adapter(tape, PASS) for _ in range(tape.weighted([(0, 3), (1, 1)]))]
+            ln = add_link(k, dst, ch, share=False)
+            if comps[dst]["kind"] == "sim":
+                comps[dst]["inputs"][ln["dst"][1]]["static"] = tape.chance(1, 2)
 
     # push-based sinks: components without time step whose inputs pull on every notification
     if allow_sinks and tape.chance(1, 5):
